@@ -21,11 +21,14 @@ class Variant:
 
 
 class TypeDef:
-    def __init__(self, is_enum, variants, derived, entry="attr", generic=False, keys="distinct", tname="X"):
+    def __init__(self, is_enum, variants, derived, entry="attr", generic=False, keys="distinct", tname="X", hostile=None):
         self.is_enum, self.variants, self.derived, self.entry = is_enum, variants, derived, entry
         self.generic = generic      # field types written with T, instantiated at u8
         self.keys = keys
         self.tname = tname
+        # hostile: {"type": name, "param": name}: the item lives in `mod def` under a prelude-shadowing glob import and is
+        # re-exported as X; variant / field names are already the hostile ones
+        self.hostile = hostile
 
     def describe(self):
         vs = []
@@ -53,12 +56,14 @@ def field_attrs(td, f):
 def ty_decl(td, ty):
     """field type as written in the definition (generic programs write T for u8)"""
     if td.generic:
-        return ty.replace("u8", "T")
+        return ty.replace("u8", (td.hostile or {}).get("param", "T"))
     return ty
 
 
 def typedef_text(td, extra_derives=("Debug", "Clone")):
-    g = "<T: Kb>" if td.generic else ""
+    pn = (td.hostile or {}).get("param", "T")
+    g = ("<%s: Kb>" % pn) if td.generic else ""
+    real_name = (td.hostile or {}).get("type", td.tname)
     lst = ", ".join(td.derived)
     std = ", ".join(extra_derives)
     if td.entry == "attr":
@@ -83,12 +88,28 @@ def typedef_text(td, extra_derives=("Debug", "Clone")):
 
     if td.is_enum:
         body = ",\n    ".join(v.name + fields_text(v) for v in td.variants)
-        return "%spub enum %s%s {\n    %s\n}\n" % (head, td.tname, g, body)
+        return wrap(td, "%spub enum %s%s {\n    %s\n}\n" % (head, real_name, g, body))
     v = td.variants[0]
     ft = fields_text(v)
     if v.kind == "named":
-        return "%spub struct %s%s%s\n" % (head, td.tname, g, ft)
-    return "%spub struct %s%s%s;\n" % (head, td.tname, g, ft)
+        return wrap(td, "%spub struct %s%s%s\n" % (head, real_name, g, ft))
+    return wrap(td, "%spub struct %s%s%s;\n" % (head, real_name, g, ft))
+
+
+SHADOW = ("pub mod shadow { " + " ".join("pub struct %s;" % n for n in ["Option", "Some", "None", "Eq", "Fn", "FnOnce", "Clone", "Ordering", "Result", "Default", "Ok", "Err", "PartialEq", "Ord",
+                                                                        "PartialOrd", "Hash", "Hasher", "Debug", "Sized", "Copy", "Box", "Vec", "String", "Into", "From", "Iterator", "Send", "Sync", "Drop",
+                                                                        "Equal", "Less", "Greater", "Formatter", "PhantomData", "Deref", "Add"]) +
+          " pub mod core {} pub mod std {} pub mod alloc {} pub fn drop() {} pub fn unreachable() {} }\n")
+
+
+def wrap(td, text):
+    if not td.hostile:
+        return text
+    body = "".join(l + " " for l in text.split("\n") if l.strip())
+    # one paragraph: the derive_ex item under a prelude-shadowing glob import; key/by functions and field types come from support
+    return ("pub mod def { #[allow(unused_imports)] use super::shadow::*; use crate::support::{%s};\n%s\n}\n\n%spub use def::%s as %s;\n" % (
+        ", ".join(["P", "W", "Kb"] + ["k_" + a for a in R.OPS] + ["by_" + a for a in R.OPS] + ["ck", "ck_cmp", "ck_pcmp", "ck_eq", "ck_hash"]), body, SHADOW, td.hostile.get("type", td.tname), td.tname))
+
 
 
 def inst(td):
@@ -100,12 +121,12 @@ def binders(v, prefix):
     if v.kind == "unit":
         return ""
     if v.kind == "named":
-        return " { " + ", ".join("%s: %s_%s" % (f.name, prefix, f.name) for f in v.fields) + " }"
+        return " { " + ", ".join("%s: %s_%d" % (f.name, prefix, i) for i, f in enumerate(v.fields)) + " }"
     return "(" + ", ".join("%s_%d" % (prefix, i) for i, f in enumerate(v.fields)) + ")"
 
 
 def bname(v, f, i, prefix):
-    return "%s_%s" % (prefix, f.name if v.kind == "named" else i)
+    return "%s_%d" % (prefix, i)
 
 
 def mk_text(td):
@@ -391,7 +412,7 @@ def type_ok_for(ty, derived, combo):
     return True
 
 
-def random_typedef(rng, derived, entry=None, keys="distinct", max_fields=4, allow_generic=True, allow_p=True, boring_p=0.35):
+def random_typedef(rng, derived, entry=None, keys="distinct", max_fields=4, allow_generic=True, allow_p=True, boring_p=0.35, fnames=NAMES, vnames=VNAMES, tymap=None):
     acc = accepted_for(derived)
     interesting = [c for c in acc if any(c[a] for a in R.OPS)]
     is_enum = rng.random() < 0.5
@@ -408,14 +429,16 @@ def random_typedef(rng, derived, entry=None, keys="distinct", max_fields=4, allo
                 ty = rng.choice(["u8", "Option<u8>", "W<u8>"])
             if not type_ok_for(ty, derived, c):
                 ty = "u8"
-            fs.append(Field(NAMES[i] if kind == "named" else None, ty, c))
+            if tymap:
+                ty = tymap(ty)
+            fs.append(Field(fnames[i] if kind == "named" else None, ty, c))
         return fs
     if is_enum:
         nv = rng.randint(1, 4)
         vs = []
         for i in range(nv):
             kind = rng.choice(["unit", "tuple", "named"])
-            vs.append(Variant(VNAMES[i], kind, mkfields(kind)))
+            vs.append(Variant(vnames[i], kind, mkfields(kind)))
     else:
         kind = rng.choice(["unit", "tuple", "named", "tuple", "named"])
         vs = [Variant("X", kind, mkfields(kind))]
